@@ -303,9 +303,12 @@ pub fn format_filesize(size: u64, modifier: &str) -> String {
     let mut space = false;
 
     if let Some(cap) = FILE_SIZE_FORMAT_REGEX.captures(&modifier) {
-        zeroes = cap
-            .name("zeroes")
-            .map_or(-1, |m| m.as_str().parse::<i32>().unwrap());
+        // \d+ takes any number of digits (of any script): more than an i32 holds is an error, not a panic
+        zeroes = cap.name("zeroes").map_or(-1, |m| {
+            m.as_str()
+                .parse::<i32>()
+                .unwrap_or_else(|_| error_exit("Incorrect precision in size format", m.as_str()))
+        });
         space = cap.name("space").map_or(false, |m| m.as_str() == " ");
         modifier = cap
             .name("units")
